@@ -29,10 +29,11 @@ META = dict(
                "memory model - runtime behaviour a Gallina model cannot exhibit; the flag as a memory location is modelled only as "
                "'conflicting unordered accesses to a non-atomic object' (c25_flag_discipline, over the declared types regenerated "
                "from the source).",
-    level_note="Today search() polls between propagate() returning a conflict and its handling (poll_after_conflict = true) and both "
-               "flags are plain bool (atomic = false): the refutation branches of c25_state_after_stop and c25_flag_discipline are what "
-               "is proved, and the check reports what it exhibits on the implementation as findings (a deterministic wrong `sat` after "
-               "a stop on corpus/C25; the ThreadSanitizer race). Trusted: Coq kernel, extraction, ocaml/conc_driver.ml, "
+    level_note="Which branches are the proved ones follows the source: since /repo 26adfbb search() handles a conflict before the poll "
+               "(poll_after_conflict = false: c25_state_after_stop is the positive statement) and since c9d9bc3 both flags are "
+               "std::atomic<bool> (atomic = true: no trace has a data race); before those commits the refutation branches were proved and "
+               "the check exhibited a deterministic wrong `sat` after a stop (corpus/C25, still run first on every check) and the "
+               "ThreadSanitizer race (known_findings/C25.json, now `fixed`). Trusted: Coq kernel, extraction, ocaml/conc_driver.ml, "
                "translate/stop_flag.py (pattern recognition), harness/h_stop.cc, the poll-counter hook in okContinue (add-only, raises "
                "the flag from the polling thread), ThreadSanitizer, z3 (oracle for the reference answers, notes only). Timing-based "
                "requests explore the moments the scheduler happens to give; hook-based requests are exact and compared with the model.",
